@@ -1,5 +1,5 @@
 import ParryModel.C08.CollectLemmas
-import ParryModel.C08.RebuildLemmas
+import ParryModel.C08.RebuildBoxLemmas
 /-!
 # C08: `rebalance` preserves the structural invariant (core Lean only)
 -/
@@ -113,7 +113,7 @@ def rebalRoot (aabb : Aabb3 K) (id : Nat) : Node K :=
   ⟨#v[aabb, invalidBox, invalidBox, invalidBox], #v[id, MAXN, MAXN, MAXN], MAXN, 0, false, false, false⟩
 
 /-- what `rebalance` guarantees on its ordinary path -/
-structure RebalanceOut (q q' : Q K) : Prop where
+structure RebalanceOut (margin : K) (q q' : Q K) : Prop where
   inv : Inv q'
   rootPar : ∀ r : Node K, q'.nodes[0]? = some r → r.parent = MAXN
   dirtyList : q'.dirtyNodes = q.dirtyNodes
@@ -122,13 +122,14 @@ structure RebalanceOut (q q' : Q K) : Prop where
     ∃ pr : Proxy, q.proxies[p]? = some pr ∧ pr'.data = pr.data ∧ (pr'.node = MAXN ↔ pr.node = MAXN)
   clean : (∀ (n : Nat) (nd : Node K), q.nodes[n]? = some nd → nd.dirty = false) →
     ∀ (n : Nat) (nd : Node K), q'.nodes[n]? = some nd → nd.dirty = false
+  boxInv : BoxCtx K margin → ∀ cur : Nat → Aabb3 K, BoxInv q cur → BoxInv q' cur
 
 theorem rebalance_okPath {q : Q K} (hinv : Inv q) (margin : K) (root : Node K) (hroot : q.nodes[0]? = some root)
     (c : Coll K) (hc : collectAll q root = .ok c) (q1 : Q K) (id : Nat) (aabb : Aabb3 K)
     (hrec : rebalRec c.items.reverse.toArray margin c.items.reverse.toArray.size { q with freeList := c.free }
       (Array.range c.items.reverse.toArray.size) 0 0 = some (q1, id, aabb))
     (hsmall : q1.nodes.size ≤ MAXN) :
-    RebalanceOut q { q1 with rootAabb := aabb, nodes := q1.nodes.setIfInBounds 0 (rebalRoot aabb id) } := by
+    RebalanceOut margin q { q1 with rootAabb := aabb, nodes := q1.nodes.setIfInBounds 0 (rebalRoot aabb id) } := by
   -- the root is a live internal node
   have hpos : 0 < q.nodes.size := (Array.getElem?_eq_some_iff.mp hroot).1
   obtain ⟨⟨root', hroot', hrleaf⟩, hlive0⟩ : (∃ r : Node K, q.nodes[0]? = some r ∧ r.leaf = false) ∧ Live q 0 := by
@@ -258,16 +259,16 @@ theorem rebalance_okPath {q : Q K} (hinv : Inv q) (margin : K) (root : Node K) (
   have hU : ∀ (n : Nat) (nd : Node K), q.nodes[n]? = some nd → Live q n → n ≠ 0 → n ∉ F →
       ((¬ ∃ it ∈ its, it.isLeaf = false ∧ it.orig = n) → q'.nodes[n]? = some nd) ∧
       ((∃ it ∈ its, it.isLeaf = false ∧ it.orig = n) → ∃ nd' : Node K, q'.nodes[n]? = some nd' ∧
-        nd'.children = nd.children ∧ nd'.leaf = nd.leaf ∧ nd'.dirty = nd.dirty) := by
+        nd'.children = nd.children ∧ nd'.leaf = nd.leaf ∧ nd'.dirty = nd.dirty ∧ nd'.boxes = nd.boxes) := by
     intro n nd hnd hl hn0 hnF
     have hlt := (Array.getElem?_eq_some_iff.mp hnd).1
     have hna := hUnotA n hl hnF hlt
     refine ⟨fun hk => ?_, fun hk => ?_⟩
     · rw [hnne n hn0, o.nodeSame n hna (fun h => hk ((hKp n).1 h))]; exact hnd
-    · obtain ⟨x, x', a1, a2, a3, a4, _, a6, _⟩ := o.keptSame n ((hKp n).2 hk)
+    · obtain ⟨x, x', a1, a2, a3, a4, a5, a6, _⟩ := o.keptSame n ((hKp n).2 hk)
       have a1' : q.nodes[n]? = some x := a1
       rw [hnd] at a1'; cases a1'
-      exact ⟨x', by rw [hnne n hn0]; exact a2, a3, a4, a6⟩
+      exact ⟨x', by rw [hnne n hn0]; exact a2, a3, a4, a6, a5⟩
   -- children of untouched internal nodes are untouched, and not re-parented
   have hUchild : ∀ (n : Nat) (nd : Node K), q.nodes[n]? = some nd → Live q n → n ≠ 0 → n ∉ F → nd.leaf = false →
       ∀ (l c' : Nat), nd.children[l]? = some c' → c' ≠ MAXN →
@@ -522,7 +523,7 @@ theorem rebalance_okPath {q : Q K} (hinv : Inv q) (margin : K) (root : Node K) (
       · have := hinv.freeBound n h; omega
     · rw [hsz']; exact hsmall
     · rw [e'p, o.frame.psize]; exact hinv.psmall
-  refine ⟨hInv, ?_, by rw [e'd]; exact o.frame.dirty, by rw [e'p]; exact o.frame.psize, ?_, ?_⟩
+  refine ⟨hInv, ?_, by rw [e'd]; exact o.frame.dirty, by rw [e'p]; exact o.frame.psize, ?_, ?_, ?_⟩
   · intro r hr; rw [hn0'] at hr; cases hr; rfl
   · intro p pr' hp
     by_cases hs : ∃ it ∈ its, it.isLeaf = true ∧ it.orig = p
@@ -551,6 +552,81 @@ theorem rebalance_okPath {q : Q K} (hinv : Inv q) (margin : K) (root : Node K) (
           rw [a6]; exact hclean n x a1
         · rw [o.nodeSame n hA (fun h => hk ((hKp n).1 h))] at hnd
           exact hclean n nd hnd
+
+  · -- boxes
+    intro bc cur hb
+    have hpre : BoxPre ws cur { q with freeList := c.free } (Array.range ws.size) := by
+      intro i _ it e
+      have hit := hwsmem i it e
+      refine ⟨fun hl => ?_, fun hl => ?_⟩
+      · obtain ⟨_, _, _, _, _, nd, e1, _, e3, _⟩ := g.kept it hit hl
+        exact ⟨nd, e1, e3⟩
+      · obtain ⟨_, hm, n, hn, nd, l, x1, x2, x3, x4⟩ := g.leaf it hit hl
+        obtain ⟨pr, p1, _⟩ := hinv.leafProxy n nd x1 (hFlive n hn) x2 l it.orig x3 hm
+        refine ⟨pr, p1, ?_⟩
+        have hg := hb n nd x1 (hFlive n hn)
+        have := containsAll_lane _ _ hg l it.box _ x4 (fresh_leaf_lane q cur nd l it.orig x2 x3)
+        rw [p1] at this; exact this
+    have bp := o.box bc cur hpre hsmall hinv.psmall
+    have hps' : q'.proxies.size ≤ MAXN := by rw [e'p, o.frame.psize]; exact hinv.psmall
+    have hps1 : q1.proxies.size ≤ MAXN := by rw [o.frame.psize]; exact hinv.psmall
+    intro n nd hnd hl
+    by_cases hn0 : n = 0
+    · subst hn0
+      rw [hn0'] at hnd; cases hnd
+      unfold GoodNode
+      apply containsAll_of_lanes
+      intro j x y hx hy
+      simp only [freshBoxes, rebalRoot, Bool.false_eq_true, if_false] at hx hy
+      obtain ⟨c', hc', rfl⟩ := map_get4' _ _ _ _ hy
+      rcases vec4_lane _ j x hx with rfl | rfl | rfl | rfl <;> simp at hx hc' <;> subst hx hc'
+      · rcases bp.ret with ⟨e1, e2⟩ | ⟨x, e1, e2⟩
+        · rw [e1, e2, Array.getElem?_eq_none (by omega)]; exact bc.laws.refl _
+        · have hid0 : id ≠ 0 := by
+            intro e
+            have hm : id ≠ MAXN := by have := (Array.getElem?_eq_some_iff.mp e1).1; omega
+            exact (hidroot hm).1 e
+          rw [hnne id hid0, e1]; exact e2
+      · rw [Array.getElem?_eq_none (by omega)]; exact bc.laws.refl _
+      · rw [Array.getElem?_eq_none (by omega)]; exact bc.laws.refl _
+      · rw [Array.getElem?_eq_none (by omega)]; exact bc.laws.refl _
+    · rcases hclass n nd hnd hl hn0 with hA | ⟨hlq, hnF, nd0, hnd0⟩
+      · have hnd1 : q1.nodes[n]? = some nd := by rw [← hnne n hn0]; exact hnd
+        refine goodNode_frameS cur o.sub ?_ (fun p _ => by rw [e'p]) hsmall (by rw [hsz']; exact hsmall) hps1 hps'
+          n nd hA hnd1 (bp.good n nd hA hnd1)
+        intro m hm
+        apply hnne
+        rintro rfl
+        rcases hm with hm | hm
+        · exact hAl0 hm
+        · exact (hKeptFacts 0 ((hKp 0).1 hm)).2.1 rfl
+      · obtain ⟨u1, u2⟩ := hU n nd0 hnd0 hlq hn0 hnF
+        have hsame : nd.children = nd0.children ∧ nd.leaf = nd0.leaf ∧ nd.boxes = nd0.boxes := by
+          by_cases hk : ∃ it ∈ its, it.isLeaf = false ∧ it.orig = n
+          · obtain ⟨x, e, a1, a2, _, a4⟩ := u2 hk
+            rw [hnd] at e; cases e; exact ⟨a1, a2, a4⟩
+          · have e := u1 hk
+            rw [hnd] at e; cases e; exact ⟨rfl, rfl, rfl⟩
+        have hg := hb n nd0 hnd0 hlq
+        unfold GoodNode at hg ⊢
+        rw [hsame.2.2, freshBoxes_congr q q' cur cur nd0 nd hsame.1 hsame.2.1 ?_ ?_]
+        · exact hg
+        · intro hleaf l c' hc
+          by_cases hcm : c' = MAXN
+          · subst hcm
+            rw [Array.getElem?_eq_none (by omega), Array.getElem?_eq_none (by have := hinv.psmall; omega)]
+          · obtain ⟨pr, p1, p2, _⟩ := hinv.leafProxy n nd0 hnd0 hlq hleaf l c' hc hcm
+            rw [hproxSame c']
+            intro hs
+            obtain ⟨pr', e1, e2⟩ := hSF c' hs
+            rw [p1] at e1; cases e1
+            rw [p2] at e2; exact hnF e2
+        · intro hleaf l c' hc
+          by_cases hcm : c' = MAXN
+          · subst hcm
+            rw [Array.getElem?_eq_none (by rw [hsz']; omega), Array.getElem?_eq_none (by have := hinv.small; omega)]
+          · obtain ⟨c0, clive, cF, ck, cn, hcn, _, _⟩ := hUchild n nd0 hnd0 hlq hn0 hnF hleaf l c' hc hcm
+            rw [(hU c' cn hcn clive c0 cF).1 ck, hcn]
 
 /-! ## `rebalance` as a whole -/
 
@@ -596,13 +672,15 @@ theorem collectAll_noPanic (q : Q K) (root : Node K) : collectAll q root ≠ .pa
 theorem allLeaves_spec {q : Q K} (hinv : Inv q) (hdata : DataOk q) :
     ∀ (l : List Proxy) (k : Nat), (∀ i : Nat, i < l.length → q.proxies[k + i]? = l[i]?) →
       ∃ items : List (Nat × Aabb3 K), allLeaves q l = some items ∧ items.length ≤ l.length ∧
-        (∀ it ∈ items, k ≤ it.1 ∧ it.1 < k + l.length) ∧ (items.map (·.1)).Pairwise (· < ·) := by
+        (∀ it ∈ items, k ≤ it.1 ∧ it.1 < k + l.length) ∧ (items.map (·.1)).Pairwise (· < ·) ∧
+        (∀ it ∈ items, ∃ (pr : Proxy) (nd : Node K), q.proxies[it.1]? = some pr ∧ pr.node ≠ MAXN ∧
+          q.nodes[pr.node]? = some nd ∧ nd.boxes[pr.lane]? = some it.2) := by
   intro l
   induction l with
-  | nil => intro k _; exact ⟨[], rfl, by simp, by simp, by simp⟩
+  | nil => intro k _; exact ⟨[], rfl, by simp, by simp, by simp, by simp⟩
   | cons pr rest ih =>
     intro k h
-    obtain ⟨items, e, a1, a2, a3⟩ := ih (k + 1) (fun i hi => by
+    obtain ⟨items, e, a1, a2, a3, a4⟩ := ih (k + 1) (fun i hi => by
       have := h (i + 1) (by simp; omega)
       simp only [List.getElem?_cons_succ] at this
       rw [← this]; congr 1; omega)
@@ -613,7 +691,7 @@ theorem allLeaves_spec {q : Q K} (hinv : Inv q) (hdata : DataOk q) :
     cases hn : q.nodes[pr.node]? with
     | none =>
       simp only [hn]
-      exact ⟨items, e, by simp; omega, fun it hit => by have := a2 it hit; simp; omega, a3⟩
+      exact ⟨items, e, by simp; omega, fun it hit => by have := a2 it hit; simp; omega, a3, a4⟩
     | some nd =>
       have hne : pr.node ≠ MAXN := by
         intro e'
@@ -623,7 +701,7 @@ theorem allLeaves_spec {q : Q K} (hinv : Inv q) (hdata : DataOk q) :
       rw [hn] at hnd'; cases hnd'
       have hl4 : pr.lane < 4 := by rcases vec4_lane _ _ _ hch with h | h | h | h <;> omega
       simp only [hn, show nd.boxes[pr.lane]? = some nd.boxes[pr.lane] by simp [hl4], e, Option.map_some]
-      refine ⟨_, rfl, by simp; omega, ?_, ?_⟩
+      refine ⟨_, rfl, by simp; omega, ?_, ?_, ?_⟩
       · intro it hit
         simp only [List.mem_cons] at hit
         rcases hit with rfl | hit
@@ -635,26 +713,74 @@ theorem allLeaves_spec {q : Q K} (hinv : Inv q) (hdata : DataOk q) :
         obtain ⟨it, hit, rfl⟩ := List.mem_map.1 hx
         rw [hdata k pr hpr hne]
         have := a2 it hit; omega
+      · intro it hit
+        simp only [List.mem_cons] at hit
+        rcases hit with rfl | hit
+        · refine ⟨pr, nd, ?_, hne, hn, by simp [hl4]⟩
+          rw [hdata k pr hpr hne]; exact hpr
+        · exact a4 it hit
 
 /-- what `rebalance` guarantees -/
-structure RebalanceRes (q q' : Q K) : Prop where
+structure RebalanceRes (margin : K) (q q' : Q K) : Prop where
   inv : Inv q'
   rootPar : ∀ r : Node K, q'.nodes[0]? = some r → r.parent = MAXN
   dirtyList : q'.dirtyNodes = q.dirtyNodes
   data : DataOk q → DataOk q'
   clean : (∀ (n : Nat) (nd : Node K), q.nodes[n]? = some nd → nd.dirty = false) →
     ∀ (n : Nat) (nd : Node K), q'.nodes[n]? = some nd → nd.dirty = false
+  boxInv : BoxCtx K margin → DilateLaws K 0 (fun _ => True) → ∀ cur : Nat → Aabb3 K, BoxInv q cur → BoxInv q' cur
+
+/-- the box invariant only gets easier when the leaves' current boxes shrink -/
+theorem boxInv_mono (laws : BoxLaws K) {q : Q K} (hinv : Inv q) (cur cur' : Nat → Aabb3 K) (h : BoxInv q cur')
+    (hc : ∀ (p : Nat) (pr : Proxy), q.proxies[p]? = some pr → pr.node ≠ MAXN →
+      boxContains (cur' pr.data) (cur pr.data) = true) : BoxInv q cur := by
+  intro n nd hnd hl
+  have hg := h n nd hnd hl
+  unfold GoodNode at hg ⊢
+  apply containsAll_of_lanes
+  intro l x y hx hy
+  have hl4 : l < 4 := by rcases vec4_lane _ l x hx with h | h | h | h <;> omega
+  have hch : nd.children[l]? = some nd.children[l] := by simp [hl4]
+  cases hleaf : nd.leaf with
+  | false =>
+    rw [fresh_internal_lane q cur nd l _ hleaf hch] at hy
+    exact containsAll_lane _ _ hg l x y hx (by rw [fresh_internal_lane q cur' nd l _ hleaf hch]; exact hy)
+  | true =>
+    rw [fresh_leaf_lane q cur nd l _ hleaf hch] at hy
+    have hy' := fresh_leaf_lane q cur' nd l _ hleaf hch
+    cases hp : q.proxies[nd.children[l]]? with
+    | none =>
+      rw [hp] at hy hy'
+      exact containsAll_lane _ _ hg l x y hx (by rw [hy']; exact hy)
+    | some pr =>
+      rw [hp] at hy hy'
+      simp only [Option.some.injEq] at hy
+      subst hy
+      have h1 := containsAll_lane _ _ hg l x _ hx hy'
+      have hcm : nd.children[l] ≠ MAXN := by
+        intro e
+        have := (Array.getElem?_eq_some_iff.mp hp).1
+        have := hinv.psmall
+        omega
+      obtain ⟨pr', e1, e2, _⟩ := hinv.leafProxy n nd hnd hl hleaf l _ hch hcm
+      rw [hp] at e1; cases e1
+      have hne : pr.node ≠ MAXN := by
+        rw [e2]
+        have := (Array.getElem?_eq_some_iff.mp hnd).1
+        have := hinv.small
+        omega
+      exact laws.trans _ _ _ h1 (hc _ pr hp hne)
 
 /-- **`rebalance` never panics, terminates, and preserves the structural invariant** — on both paths (re-split of the
 collected entries with free-list reuse; full rebuild when a changed subtree is deeper than `FULL_REBUILD_DEPTH`).
 `hfit`: the node count after the call fits `u32` (the `as u32` casts are not modelled). -/
 theorem rebalance_spec (q : Q K) (margin : K) (hinv : Inv q) (hdata : DataOk q) (hp : 4 * q.proxies.size + 2 ≤ MAXN)
     (hfit : ∀ q' : Q K, rebalance q margin = some q' → q'.nodes.size ≤ MAXN) :
-    ∃ q' : Q K, rebalance q margin = some q' ∧ RebalanceRes q q' := by
+    ∃ q' : Q K, rebalance q margin = some q' ∧ RebalanceRes margin q q' := by
   unfold rebalance at hfit ⊢
   cases hroot : q.nodes[0]? with
   | none =>
-    refine ⟨q, rfl, hinv, ?_, rfl, id, id⟩
+    refine ⟨q, rfl, hinv, ?_, rfl, id, id, fun _ _ _ h => h⟩
     intro r hr; rw [hroot] at hr; cases hr
   | some root =>
     simp only [hroot] at hfit ⊢
@@ -662,7 +788,7 @@ theorem rebalance_spec (q : Q K) (margin : K) (hinv : Inv q) (hdata : DataOk q) 
     | panic => exact absurd hc (collectAll_noPanic q root)
     | force =>
       simp only [hc] at hfit ⊢
-      obtain ⟨items, e, a1, a2, a3⟩ := allLeaves_spec hinv hdata q.proxies.toList 0 (fun i hi => by simp)
+      obtain ⟨items, e, a1, a2, a3, a4⟩ := allLeaves_spec hinv hdata q.proxies.toList 0 (fun i hi => by simp)
       simp only [e] at hfit ⊢
       have hlen : items.length ≤ q.proxies.size := by simpa using a1
       have hnd : (items.map (·.1)).Nodup := a3.imp (fun h => Nat.ne_of_lt h)
@@ -672,10 +798,30 @@ theorem rebalance_spec (q : Q K) (margin : K) (hinv : Inv q) (hdata : DataOk q) 
         simp only [Array.length_toList] at this
         omega
       obtain ⟨q', e', out⟩ := rebuild_spec q items 0 hnd hid (by omega)
-      refine ⟨q', e', out.inv, out.rootPar, out.dirtyList, ?_, fun _ => out.clean⟩
-      intro _ p pr hpr hne
-      obtain ⟨pr', h1, h2⟩ := out.data p ((out.attached p pr hpr).1 hne)
-      rw [hpr] at h1; cases h1; exact h2
+      refine ⟨q', e', out.inv, out.rootPar, out.dirtyList, ?_, fun _ => out.clean, ?_⟩
+      · intro _ p pr hpr hne
+        obtain ⟨pr', h1, h2⟩ := out.data p ((out.attached p pr hpr).1 hne)
+        rw [hpr] at h1; cases h1; exact h2
+      · intro bc d0 cur hb
+        have hb' := rebuild_box bc.laws (fun _ => True) q q' items 0 d0 cur hnd hid (by omega) (fun _ _ => trivial) e'
+        refine boxInv_mono bc.laws out.inv cur _ hb' ?_
+        intro p pr hpr hne
+        have hp' := (out.attached p pr hpr).1 hne
+        obtain ⟨pr', h1, h2⟩ := out.data p hp'
+        rw [hpr] at h1; cases h1
+        rw [h2]
+        obtain ⟨b, hb1, hb2⟩ := curAfter_mem items p hp'
+        rw [hb2 cur]
+        obtain ⟨pr0, nd0, e1, e2, e3, e4⟩ := a4 (p, b) hb1
+        dsimp only at e1 e4
+        obtain ⟨plive, nd1, f1, f2, f3⟩ := hinv.proxyLeaf p pr0 e1 e2
+        rw [e3] at f1; cases f1
+        have hg := hb pr0.node nd0 e3 plive
+        have := containsAll_lane _ _ hg pr0.lane b _ e4 (fresh_leaf_lane q cur nd0 pr0.lane p f2 f3)
+        rw [e1] at this
+        dsimp only at this
+        rw [hdata p pr0 e1 e2] at this
+        exact this
     | ok c =>
       simp only [hc] at hfit ⊢
       -- the recursion terminates
@@ -732,7 +878,7 @@ theorem rebalance_spec (q : Q K) (margin : K) (hinv : Inv q) (hdata : DataOk q) 
         have := hfit _ rfl
         simpa using this
       have out := rebalance_okPath hinv margin root hroot c hc q1 id aabb hrec' hsmall
-      refine ⟨_, rfl, out.inv, out.rootPar, out.dirtyList, ?_, out.clean⟩
+      refine ⟨_, rfl, out.inv, out.rootPar, out.dirtyList, ?_, out.clean, fun bc _ => out.boxInv bc⟩
       intro hd' p pr' hp' hne
       obtain ⟨pr, h1, h2, h3⟩ := out.attached p pr' hp'
       rw [h2]
